@@ -41,7 +41,19 @@ def genCase (i : Nat) : G (List String) := do
   let dg : Datagram := ⟨← Sflow.genIP, ← Sflow.w32, ← Sflow.w32, ← Sflow.w32, ss.map (·.1)⟩
   let exp := ss.filterMap fun (s, fr) => (refSample dg.agent dg.seq recv s fr).map FlowMsg.dump
   let pipe := if i % 2 = 0 then "sf" else "auto"
-  pure (header ++ [pktLine pipe e recv (encode dg), "expect res ok n=" ++ toString exp.length] ++ exp.map ("expect " ++ ·))
+  -- a raw header record that announces a shorter header than it carries (the header-length word of the record, XDR-padded
+  -- captures, sloppy agents): the bytes that are there are what was sampled — they are dissected, whatever the word says
+  let d0 := encode dg
+  let d ← (do
+    match dg.samples with
+    | .flow _ _ _ _ (.rawHeader 1 _ _ h :: _) :: _ =>
+      if h.length ≥ 15 ∧ (← chance 1 2) then
+        let off := (if dg.agent.length = 4 then 28 else 40) + 40 + 8 + 12
+        let k ← pick [0, 14, h.length - 1, h.length - 3, h.length / 2]
+        pure (d0.take off ++ encBE 4 k ++ d0.drop (off + 4))
+      else pure d0
+    | _ => pure d0)
+  pure (header ++ [pktLine pipe e recv d, "expect res ok n=" ++ toString exp.length] ++ exp.map ("expect " ++ ·))
 
 def gen (n : Nat) : G (List String) := do
   let mut out : List String := []
